@@ -229,10 +229,11 @@ def build(case, fe=None):
 
     def bound_part():
         nonlocal value
-        g = dv(2)
-        st(lambda: (g >= np.array([0.25, -1.0]), g <= np.array([3.0, 0.5]),))
-        terms.append(g[0] - g[1])
-        value += 0.25 - 0.5
+        # three bounded variables: lb > 0 active, ub > 0 active, and lb < ub < 0 with the NEGATIVE ub active
+        g = dv(3)
+        st(lambda: (g >= np.array([0.25, -1.0, -3.0]), g <= np.array([3.0, 0.5, -1.0]),))
+        terms.append(g[0] - g[1] - g[2])
+        value += 0.25 - 0.5 + 1.0
 
     def int_part():
         nonlocal value
